@@ -19,31 +19,31 @@ CLAIMS = {
  'C04': ("deterministic simulation: reference model with one record per accepted swap request (diff of the transient queue after every transaction), matched against the ordered end-block swap settlements and cross-checked with the bank-event ledger; schedules = seeded block composition/order, duplicates, same/opposite directions on one pool",
          "Each accepted request settles at most once within its limits or leaves no movement; no settlement without a request of the same block; queue empty before the first transaction of the next block.", "5/C04", ""),
  'C05': ("deterministic simulation: per-share pool value recorded at every transaction/block boundary; whenever a step changed a pool's share supply (join, exit, leveraged-LP open/close, sweep liquidation) the per-share value left behind must not fall beyond the stated rounding allowance",
-         "Constant-product pools: ln(weighted geometric mean of reserves / shares); oracle pools: value at oracle prices per share (a fall must show under both the raw-reserve and the accounted-balance basis). Exits emptying a reserve or the share supply are flagged.", "5/C05", "Numeric-domain completeness of the pure functions is out of this technique's reach."),
+         "Constant-product pools: ln(weighted geometric mean of reserves / shares); oracle pools: value at oracle prices per share on the basis the step's operations are priced against (accounted balances for one-asset joins/exits and all leveraged-LP operations, raw reserves for all-asset operations; steps mixing both or moving perpetual liabilities/custody: a fall must show under both). Exits emptying a reserve or the share supply are flagged.", "5/C05", "Numeric-domain completeness of the pure functions is out of this technique's reach."),
  'C06': ("deterministic simulation: exact equation TotalValue == cash + sum(principal + stacked - paid interest) evaluated at every transaction and block boundary under lender / leveraged-LP / liquidation traffic, clock jumps and interest-rate changes",
          "Exact integer equality after every step of every simulated history.", "5/C06", ""),
  'C07': ("deterministic simulation: big.Rat reference of the redemption rate around every bond/unbond (pre/post state of the transaction), monotonic rate on every other step, immediate bond->unbond round trips generated in one block, 90% cap after every step that raised principal",
          "Per operation and per step on every simulated history; amounts from 1 base unit upward, non-integral rates after interest accrual.", "5/C07", "Numeric-domain completeness of the pure functions is out of this technique's reach."),
  'C08': ("deterministic simulation: step-wise invariant pool total == sum of positions, position shares == committed shares at the position address, counter == stored positions, nothing left at addresses of closed positions; bots naming arbitrary/all positions, begin-block sweep with small page sizes, gas starvation inside close handlers",
          "Checked at every transaction and block boundary.", "5/C08", ""),
- 'C09': ("deterministic simulation: step-wise invariant pool custody/liabilities/collateral per side and asset == sums over stored positions, counter == #positions, amm reserve >= total custody; long/short/consolidate/top-up/close/liquidation traffic with funding and interest settlement, gas starvation",
+ 'C09': ("deterministic simulation: step-wise invariant pool custody/liabilities/collateral per side and asset == sums over stored positions, counter == #positions, amm reserve >= total custody; long/short/consolidate/top-up/close/liquidation traffic with funding and interest settlement, gas starvation incl. the exact gas cut (abort <delta> gas units before the end of the handler)",
          "Checked at every transaction and block boundary.", "5/C09", ""),
  'C11': ("deterministic simulation: step-wise invariant accounted balance == reserve + liabilities - custody and non-amm part == liabilities - custody under alternating amm-side and perpetual-side operations",
          "Checked at every transaction and block boundary (take-profit term off, as in the default parameters).", "5/C11", ""),
- 'C12': ("deterministic simulation: step-wise invariants total == sum over accounts (bug-compatible relation for known finding F04), custody >= committed + claimed for bank-backed denoms, no negative committed; commit/uncommit/bond/unbond/join/exit/leveraged-LP/vesting/EdenB traffic",
-         "Checked at every transaction and block boundary. The chain-wide total deviates by exactly 2 x uncommitted (known finding F04, not repairable without failing the existing suite); any other drift is a violation.", "5/C12", "Lock-up expiry is exercised through failed early exits/unbonds but has no dedicated oracle yet."),
- 'C14': ("deterministic simulation: integer reference model of every vesting entry applied per vest/claim/cancel/vest-now transaction (pre/post state), conservation Eden in == released + returned + scheduled, claims must not fail",
+ 'C12': ("deterministic simulation: step-wise invariants total == sum over accounts (bug-compatible relation for known finding F04), custody >= committed + claimed for bank-backed denoms, no negative committed; lock-up reference model around every step (amount still under lock in the pre-state must remain committed unless the step liquidates a position that was unhealthy at its turn, taken from C10's mirror of the handler loop); commit/uncommit/bond/unbond/join/exit/leveraged-LP (incl. debt-free positions and owners naming their own positions in close-positions)/vesting/EdenB traffic",
+         "Checked at every transaction and block boundary. The chain-wide total deviates by exactly 2 x uncommitted (known finding F04, not repairable without failing the existing suite); any other drift is a violation.", "5/C12", ""),
+ 'C14': ("deterministic simulation: integer reference model of every vesting entry applied per vest/claim/cancel/vest-now transaction (pre/post state), conservation Eden in == released + returned + scheduled, every entry's own start/length/released amount carried across cancels and governance changes of the vesting parameters, claims must not fail",
          "Per transaction on every simulated history; schedules 5..100 blocks, 1..10 concurrent vestings, claims/cancels at arbitrary heights.", "5/C14", ""),
  'C15': ("deterministic simulation: every coinbase/burn event of every block (ledger self-checked against real supply of every denom) must be an allowed kind: vesting release of uelys by commitment, burner/gov/slashing burns of uelys, share mint/burn by amm/stablestake",
          "Every block of every simulated history, failed transactions and liquidations included.", "5/C15", ""),
  'C16': ("deterministic simulation: reference model map[(asset,source)][timestamp] + feeder registry derived from authorised transactions and executed gov proposals, compared with the real lookups of every known asset/denom after every block; names that are prefixes/concatenations of one another, feeder (de)activation/removal, non-feeder feeds, expiry by time and by blocks",
          "After every block of every simulated history. Exact store-key collisions of concatenated names are known finding F11.", "5/C16", ""),
- 'C18': ("deterministic simulation with fault injection: oracle outages, clock gaps/jumps (1 ms .. 40 days), restarts, adversarial/dust traffic; oracle = FinalizeBlock/Commit never errors or panics on any node",
+ 'C18': ("deterministic simulation with fault injection: oracle outages, clock gaps/jumps (1 ms .. 40 days), restarts, adversarial/dust traffic, governance proposals moving one numeric/boolean field of any module's Params (enumerated by reflection) to an edge value that the module's own validation accepts; oracle = FinalizeBlock/Commit never errors or panics on any node",
          "Every FinalizeBlock and Commit of every node in every run must succeed; a failure is reported with the minimised trace.", "5/C18", ""),
  'C19': ("deterministic simulation with crash/restart injection: twin replicas fed identical blocks, restart after commit / between FinalizeBlock and Commit / by injected disk read error; thorough tier restarts the replica after every height",
          "App hash, tx results (code, codespace, gas, data, events) and validator updates compared after every block between a reference node and a replica that is crashed and rebuilt from its SimDB.", "5/C19", ""),
  'C10': ("deterministic simulation: at the exact moment (pre-state of each third-party close-positions transaction through the ante wrapper; committed state + new header for the begin-block sweep) the chain's own health functions and trigger prices are evaluated on a discarded cache context; a clearly non-closable position must come out unchanged; every successful open must leave health > safety factor in the final state",
-         "Bots naming arbitrary (owner,id) pairs incl. all positions in one message, racing in any order, price paths hovering around liquidation, stop-loss/take-profit near the market. Exact for single-position messages; 2 % margin when several positions are named in one step.", "5/C10", ""),
+         "Bots naming arbitrary (owner,id) pairs incl. all positions in one message, racing in any order, price paths hovering around liquidation, stop-loss/take-profit near the market. Multi-position messages and the begin-block sweep are mirrored with the chain's own functions on a discarded branch, each position judged when its turn comes. Successful opens and collateral top-ups are re-checked with the borrow interest accrued.", "5/C10", ""),
  'C13': ("deterministic simulation: after every block module balance >= sum of floor(pending) over all pools and holders recomputed in big.Rat from stored accumulators and the commitment ledger; per-holder growth bound (no reward for uncommitted time); drain test on a discarded branch of the state (all holders claim in seeded random order) at sampled heights and at the end of every run",
          "Swap fees, perpetual revenue, gas fees in several denoms, external incentives with overlapping ranges, joins/exits/bonds/unbonds between distributions, governance toggling Eden rewards / multipliers / reward portions.", "5/C13", ""),
  'C17': ("deterministic simulation: every registered elys message type is enumerated by reflection (cosmos.msg.v1.signer); each authority-bearing type (38) is sent by ordinary accounts at random points of every history with reflection-generated content, with real governance content re-signed, and wrapped in authz.MsgExec without grant; owner-scoped messages are pointed at other parties' live positions/orders; oracle = refused AND byte-identical app hash with a differential shadow replica where the refused transaction is replaced by a fee-only stand-in",
